@@ -5,6 +5,8 @@ FAST = {"variant": "fast"}
 def q(budget=90, **kw):
     d = {"variant": "fast", "budget_s": budget}; d.update(kw); return d
 
+QUICK_SCALE = {"C01": 3, "C04": 6, "C05": 3, "C06": 8, "C07": 4, "C09": 10, "C10": 4, "C11": 12, "C12": 4, "C13": 15, "C14": 6, "C17": 6, "C18": 2, "C19": 4, "C20": 12}
+
 def diff_prop(technique, level_text, level_note, rule, assumptions=(), quick_budget=90, thorough_budget=1200, level="exploration", quick_extra=(), thorough_extra=(), **kw):
     d = {"level": level, "technique": technique, "level_text": level_text, "level_note": level_note, "rule": rule, "assumptions": list(assumptions),
          "quick": [q(quick_budget)] + list(quick_extra), "thorough": [q(thorough_budget)] + list(thorough_extra)}
@@ -158,3 +160,7 @@ PROPS = {
         level_note="Trusted: fork + rlimit isolation, the tracking allocator's per-call peak. Returning Ok(anything) or Err is held. An allocation driven by the caller-supplied expected-length argument is not asserted (the argument is the harness's own). Open known findings: decoders that trust an in-stream original-size / match-length field need an output-limit API.",
         rule="case = (parser target, family, index) -> one valid encoding and all its mutations (hundreds of parser calls per case); non-trivial: >= 10 mutated inputs executed; distinct: structural hash of target+base encoding.", quick_budget=150),
 }
+
+for _p, _s in QUICK_SCALE.items():
+    if _p in PROPS:
+        PROPS[_p]["quick"][0] = dict(PROPS[_p]["quick"][0], scale=_s)
